@@ -425,6 +425,8 @@ def has_unsafe_operation(ast: AST) -> bool:
 
     invalid = (
         BinaryOperator.XOr,
+        BinaryOperator.Or,
+        BinaryOperator.And,
         BinaryOperator.Power,
         BinaryOperator.Modulo,
         BinaryOperator.Division,
